@@ -254,7 +254,41 @@ def run_big(case):
             "outcome": "same" if not fails else "FAIL", "fails": fails}
 
 
+LONG_LINE = ["BEGIN:VCALENDAR", "VERSION:2.0", "BEGIN:VEVENT", "UID:long",
+             "DESCRIPTION:" + "".join(f"item {i} of the agenda\\, room {i % 9}\\; " for i in range(150)) + "Gr\u00fc\u00dfe",
+             "ATTACH;ENCODING=BASE64;VALUE=BINARY:" + "QUJD" * 1200, "END:VEVENT", "END:VCALENDAR"]
+
+
+def run_manyfolds(case):
+    """('manyfolds', provider, j, eol, ws, as_str): ONE content line of ~4000 characters folded after every j characters
+    (up to 4800 physical lines for one logical line): the same tree as the unfolded text."""
+    _, provider, j, eol, ws, as_str = case
+    env.use_provider(provider)
+    key = ("long", provider)
+    if key not in _BIG:
+        c0 = Calendar.from_ical("\r\n".join(LONG_LINE) + "\r\n")
+        _BIG[key] = (snapshot(c0), c0.to_ical())
+        env.use_provider(provider)
+    want_snap, want_ical = _BIG[key]
+    lines = [(eol + ws).join(ln[i:i + j] for i in range(0, len(ln), j)) for ln in LONG_LINE]
+    text = eol.join(lines) + eol
+    fails = []
+    try:
+        c = Calendar.from_ical(text if as_str else text.encode("utf-8"))
+        got, out = snapshot(c), c.to_ical()
+    except Exception as e:  # noqa: BLE001
+        fails.append(fail("manyfolds:variant-rejected", case, "same tree as the unfolded text", f"{type(e).__name__}: {str(e)[:100]}"))
+        return {"state": ("manyfolds-rejected",), "trans": 1, "nontrivial": True, "outcome": "rejected", "fails": fails}
+    if got != want_snap:
+        fails.append(fail("manyfolds:tree-differs", case, "same tree as the unfolded text", diff_hint(want_snap, got)))
+    elif out != want_ical:
+        fails.append(fail("manyfolds:reserialisation-differs", case, len(want_ical), len(out)))
+    return {"state": ("manyfolds", provider, not fails), "trans": 2, "nontrivial": True, "outcome": "same" if not fails else "FAIL", "fails": fails}
+
+
 def run_case(case):
+    if case[0] == "manyfolds":
+        return run_manyfolds(case)
     if case[0] == "bigfold":
         return run_big(case)
     provider, bname = case[1], case[2]
@@ -346,7 +380,16 @@ def run(ctx):
                                     continue
                                 yield ("bigfold", provider, boundary, delta, eol, ws, as_str)
 
+    def gen_many():
+        for provider in env.PROVIDERS:
+            for j in (1, 2, 3, 4, 5, 7, 10, 20, 74):
+                for eol in ("\r\n", "\n"):
+                    for ws in (" ", "\t"):
+                        for as_str in (False, True):
+                            yield ("manyfolds", provider, j, eol, ws, as_str)
+
     ctx.explore("fold-placement", gen_folds, run_case)
     ctx.explore("one-fold-around-block-boundaries-of-a-large-text", gen_big, run_case, limit=60.0)
+    ctx.explore("one-line-folded-thousands-of-times", gen_many, run_case, limit=60.0)
     ctx.explore("line-break-mixtures", gen_eolmix, run_case)
     ctx.explore("rewrite-compositions", gen_combo, run_case)
